@@ -67,7 +67,7 @@ static void dumpAll() {
 // ------------------------------------------------------------------ hook: seeded yields + forced-schedule script
 // script syntax: "site:wait:FLAG[:ms]" park at site until FLAG is set (or ms, default 3000), "site:set:FLAG", "site:sleep:us"; separated by ','
 // every action fires once (first hit of the site) unless suffixed with '*'
-struct Action { std::string site, op, arg; long n; bool every; std::atomic<int> fired; Action() : n(0), every(false), fired(0) {} };
+struct Action { std::string site, role, op, arg; long n; bool every; std::atomic<int> fired; Action() : n(0), every(false), fired(0) {} };   // site may be written site@role: only threads whose name starts with role
 static std::vector<Action*> gScript;
 static std::mutex gFlagMutex; static std::condition_variable gFlagCond; static std::map<std::string, bool> gFlags;
 static std::atomic<int> gYieldPermille(0);
@@ -85,6 +85,7 @@ static void hookFn(const char* site, const void* obj) {
 	rec("H", site);
 	for (auto a : gScript) {
 		if (a->site != site) continue;
+		if (!a->role.empty() && strncmp(tName, a->role.c_str(), a->role.size()) != 0) continue;
 		if (!a->every && a->fired.exchange(1) != 0) continue;
 		if (a->op == "set") { rec("HS", a->arg); setFlag(a->arg); }
 		else if (a->op == "wait") { rec("HW", a->arg); bool ok = waitFlag(a->arg, a->n > 0 ? a->n : 3000); rec(ok ? "HR" : "HT", a->arg); }
@@ -110,6 +111,7 @@ static void parseScript(const std::string& s) {
 		while (std::getline(is, f, ':')) p.push_back(f);
 		if (p.size() < 3) continue;
 		a->site = p[0]; a->op = p[1]; a->arg = p[2];
+		size_t at = a->site.find('@'); if (at != std::string::npos) { a->role = a->site.substr(at + 1); a->site = a->site.substr(0, at); }
 		if (a->op == "sleep") a->n = atol(p[2].c_str());
 		if (p.size() > 3) a->n = atol(p[3].c_str());
 		gScript.push_back(a);
@@ -177,6 +179,8 @@ static int modeProducers(const std::string& xml) {
 			Event e(en, Event::EXTERNAL);
 			rec("SEND", en); ip.receive(e); rec("SENT", en);
 			if ((k & 63) == 0) sched_yield();
+			long pace = argl("pace", 0);      // pace=us: slow producers, so that the queue runs empty and the stepper really goes to sleep between events
+			if (pace > 0) { struct timespec ts = {0, (long)(((k * 2654435761u + i * 40503u) % (unsigned long)pace) * 1000L)}; nanosleep(&ts, NULL); }
 		}
 		live.fetch_sub(1);
 	}));
@@ -185,9 +189,10 @@ static int modeProducers(const std::string& xml) {
 	while (st != USCXML_FINISHED && usec() < deadline) {
 		r = r * 6364136223846793005ULL + 1442695040888963407ULL;
 		int kind = (r >> 33) % 3;
-		st = ip.step(kind == 0 ? 0 : (kind == 1 ? 5 : 1));
+		long block = argl("block", 0);    // block=N: the stepper really sleeps in step(N): every enqueue has to wake it
+		st = ip.step(block > 0 ? (size_t)block : (kind == 0 ? 0 : (kind == 1 ? 5 : 1)));
 		rec("R", std::to_string((int)st));
-		if (st == USCXML_IDLE) { if (live.load() == 0 && ++idle >= 2) break; } else idle = 0;
+		if (st == USCXML_IDLE) { if (live.load() == 0 && ++idle >= (block > 0 ? 1 : 2)) break; } else idle = 0;
 	}
 	for (auto& t : th) t.join();
 	// final drain
